@@ -191,7 +191,7 @@ func (a *r1Analysis) compute(fn *ssa.Function) *r1Sum {
 }
 
 func isBatchEntry(fn *ssa.Function) bool {
-	if typeName(recvType(fn)) == "Batch" || strings.Contains(fn.Name(), "Batch") || fn.Name() == "RemoveEntities" {
+	if typeName(recvType(fn)) == "Batch" || strings.Contains(cname(fn), "Batch") || cname(fn) == "RemoveEntities" {
 		return true
 	}
 	for _, pr := range fn.Params {
@@ -403,7 +403,7 @@ func c10u5(p *Prog, r *Reporter) {
 					if !x.CommaOk || typeName(x.AssertedType) != "CachedFilter" {
 						continue
 					}
-					if fn.Name() != "Register" {
+					if cname(fn) != "Register" {
 						continue
 					}
 					okv := commaOkPanics(p, x, true)
@@ -749,7 +749,7 @@ func optionPairs(p *Prog) []optPair {
 		}
 		has := map[string]bool{}
 		for i := 0; i < st.NumFields(); i++ {
-			has[st.Field(i).Name()] = true
+			has[fieldName(tn.Type(), i)] = true
 		}
 		if has["relation"] && has["hasRelation"] {
 			out = append(out, optPair{n, "relation", "hasRelation"})
